@@ -186,15 +186,35 @@ func (w *W) c16Judge(k int, g string, doc []byte, nd bool) {
 			pj, err = parse(buf, true, nil)
 		case 2:
 			// reuse history: earlier call in no-copy mode, this one with default options
-			prev, e := simdjson.Parse([]byte(`{"earlier":"no-copy call","x":["a","b"]}`), nil, simdjson.WithCopyStrings(false))
+			// The earlier input is at least as large as this one (a recycled object may recycle
+			// whatever it holds, but the earlier *input* is the caller's memory), a second no-copy
+			// document looks at the same bytes, and the caller leaves them alone.
+			prevBuf := []byte(`{"earlier":"no-copy call","x":["a","b"],"pad":"` + strings.Repeat("e", len(doc)+r.Intn(64)) + `"}`)
+			prevWant := append([]byte{}, prevBuf...)
+			prev, e := simdjson.Parse(prevBuf, nil, simdjson.WithCopyStrings(false))
 			if e != nil {
 				continue
 			}
+			witness, e := simdjson.Parse(prevBuf, nil, simdjson.WithCopyStrings(false))
+			if e != nil {
+				continue
+			}
+			wv0 := observe(witness, false)
 			if nd {
 				pj, err = simdjson.ParseND(buf, prev)
 			} else {
 				pj, err = simdjson.Parse(buf, prev)
 			}
+			w.Eval(1)
+			if !bytes.Equal(prevBuf, prevWant) {
+				w.Violation("C16/library-wrote-into-an-earlier-input/reuse-after-no-copy", fmt.Sprintf("Parse(doc, reuse) with default options, reuse coming from a no-copy Parse of another buffer, modified that other buffer (first difference at byte %d of %d) although the caller left it intact; doc=%s", firstDiff(prevBuf, prevWant), len(prevBuf), q(doc)), cs)
+				return
+			}
+			if d := sameView(wv0, observe(witness, false)); d != "" {
+				w.Violation("C16/no-copy-document-changed-with-input-intact/reuse-after-no-copy", fmt.Sprintf("a no-copy document over an input the caller left intact changed when another object parsed from the same input was reused: %s; doc=%s", d, q(doc)), cs)
+				return
+			}
+			w.Count("earlier_no_copy_inputs_checked_intact_after_reuse", 1)
 		}
 		if err != nil {
 			w.Count("valid_doc_rejected_by_parse_(C01)", 1)
@@ -326,6 +346,16 @@ func (w *W) c16Judge(k int, g string, doc []byte, nd bool) {
 				break
 			}
 			trace = append(trace, fmt.Sprintf("%v:%s", l, op))
+		}
+		if variant == 0 {
+			// the original is the no-copy document over buf: edits go to the tape and the string
+			// buffer, the caller's input stays as it was (other no-copy documents read it)
+			w.Eval(1)
+			if !bytes.Equal(buf, doc) {
+				w.Violation("C16/library-wrote-into-the-input/edits-on-no-copy-document", fmt.Sprintf("edits %v on a no-copy document modified the caller's input buffer (first difference at byte %d); doc=%s", trace, firstDiff(buf, doc), q(doc)), cs)
+				return
+			}
+			w.Count("no_copy_inputs_checked_intact_after_edits", 1)
 		}
 		after := observe(cl, true)
 		w.Eval(1)
@@ -595,4 +625,17 @@ func replayC16(w *W, cs *ev.Case) {
 	k := cs.A % 2000003
 	w.Out.Seed = uint64((cs.A - k) / 2000003)
 	w.c16Judge(int(k), cs.Gen, cs.Input, cs.B == 1)
+}
+
+func firstDiff(a, b []byte) int {
+	n := len(a)
+	if len(b) < n {
+		n = len(b)
+	}
+	for i := 0; i < n; i++ {
+		if a[i] != b[i] {
+			return i
+		}
+	}
+	return n
 }
